@@ -32,6 +32,8 @@ CAT = {
     'Both1': (I1, 'Both', '', 's', 'value', 'Both1', 1),
     'Both2': (I2, 'Both', '', 's', 'value', 'Both2', 2),
     'Old': (I0, 'Old', 's', 's', 'value', 'Old', 3),
+    # bound by decorator in the BASE class, on an interface for which the subclass has decorator bindings of its own
+    'Inh': (I1, 'Inh', '', 's', 'value', 'Inh', 1),
 }
 
 
@@ -65,6 +67,11 @@ def build():
         def dbus_Old(self, s):
             self.log('Old', (s,), None)
             return 'old:' + s
+
+        @objects.dbusMethod(I1, 'Inh')
+        def inherited(self):
+            self.log('Inh', (), None)
+            return 'inh'
 
     class Sub(Base):
         dbusInterfaces = [i1, i2]
@@ -255,7 +262,7 @@ class ObjectsDriver:
         key = find_key(c)
         want = {'Val': ['v:' + arg], 'Multi': ['m', 7], 'Arr': [['solo']], 'Struct': [['t', 3]], 'NoneRet': None,
                 'Defer': ['d:' + arg], 'Caller': [sender], 'Both1': ['one:' + sender], 'Both2': ['two'],
-                'Old': ['old:' + arg]}.get(key, '?')
+                'Old': ['old:' + arg], 'Inh': ['inh']}.get(key, '?')
         body = m.body if m.body else None
         sig_ok = (m.signature or '') == CAT[key][3] if key else False
         return key if body == want and sig_ok else '?return %r sig %r' % (m.body, m.signature)
